@@ -9,4 +9,5 @@
 #include "spec_pack.h"
 #include "spec_common.h"
 #include "spec_constants.h"
+#include "spec_color.h"
 #endif
